@@ -144,7 +144,17 @@ def chk_der_twin(T, v, M):
         return [fail('der-twin', T, v, 'encoder raised %s: %s' % (type(e).__name__, e))], 1
     if got != ref:
         return [fail('der-twin', T, v, 'DER differs', got=got, want=ref, quirk=x690.which_quirks(T, v, 'DER', got))], 1
-    return [], 1
+    # DER fixes its modes: caller-supplied encoder options must not change the bytes
+    out = []
+    for opts in (dict(maxChunkSize=1), dict(defMode=False), dict(maxChunkSize=2, defMode=False)):
+        try:
+            g2 = de.encode(bridge.to_value(T, v), **opts)
+        except Exception as e:
+            out.append(fail('der-twin', T, v, 'DER encoder with %r raised %s' % (opts, type(e).__name__), mode=None))
+            continue
+        if g2 != got:
+            out.append(fail('der-twin', T, v, 'DER output depends on caller option %r' % (opts,), got=g2, want=got))
+    return out, 4
 
 
 def chk_cer_twin(T, v, M):
@@ -160,7 +170,16 @@ def chk_cer_twin(T, v, M):
         return [fail('cer-twin', T, v, 'encoder raised %s: %s' % (type(e).__name__, e))], 1
     if got != ref:
         return [fail('cer-twin', T, v, 'CER differs', got=got, want=ref, quirk=x690.which_quirks(T, v, 'CER', got))], 1
-    return [], 1
+    out = []
+    for opts in (dict(maxChunkSize=1), dict(defMode=True)):
+        try:
+            g2 = ce.encode(bridge.to_value(T, v), **opts)
+        except Exception as e:
+            out.append(fail('cer-twin', T, v, 'CER encoder with %r raised %s' % (opts, type(e).__name__)))
+            continue
+        if g2 != got:
+            out.append(fail('cer-twin', T, v, 'CER output depends on caller option %r' % (opts,), got=g2, want=got))
+    return out, 3
 
 
 def chk_ber_read(T, v, M):
@@ -214,34 +233,37 @@ def chk_roundtrip_ber(T, v, M):
 
 
 def chk_roundtrip_canon(T, v, M):
-    """C02: DER -> {DER,CER,BER} decoders, CER -> {CER,BER}; all agree with the value."""
+    """C02: DER -> {DER,CER,BER} decoders, CER -> {CER,BER}; all agree with the value.  The canonical encoders are also
+    called with caller-supplied modes: whatever they emit then is "the DER/CER encoding" a user gets."""
     be, bd, ce, cd, de, dd, error, bridge = M
     out, n = [], 0
     want = x690.norm(T, v)
     spec = bridge.to_type(T)
     val = bridge.to_value(T, v, spec)
     for ename, enc, decs in (('DER', de, (('DER', dd), ('CER', cd), ('BER', bd))), ('CER', ce, (('CER', cd), ('BER', bd)))):
-        try:
-            e = enc.encode(val)
-        except RecursionError:
-            out.append(fail('rt-canon', T, v, 'RecursionError in encoder', pair=ename))
-            continue
-        except Exception as ex:
-            out.append(fail('rt-canon', T, v, 'encoder %s raised %s: %s' % (ename, type(ex).__name__, str(ex)[:200]),
-                            pair=ename))
-            continue
-        for dname, dec in decs:
-            n += 1
+        for opts in ({}, {'maxChunkSize': 3}, {'defMode': ename == 'CER'}):
+            oname = ename + ('' if not opts else repr(sorted(opts.items())))
             try:
-                r, rest = dec.decode(e, asn1Spec=spec)
-                got = x690.norm(T, bridge.from_value(T, r))
-            except Exception as ex:
-                out.append(fail('rt-canon', T, v, '%s: %s' % (type(ex).__name__, str(ex)[:200]),
-                                pair=ename + '->' + dname, enc=e))
+                e = enc.encode(val, **opts)
+            except RecursionError:
+                out.append(fail('rt-canon', T, v, 'RecursionError in encoder', pair=oname))
                 continue
-            if got != want or rest:
-                out.append(fail('rt-canon', T, v, 'round trip differs', pair=ename + '->' + dname, enc=e,
-                                got=repr(got), rest=rest))
+            except Exception as ex:
+                out.append(fail('rt-canon', T, v, 'encoder %s raised %s: %s' % (oname, type(ex).__name__, str(ex)[:200]),
+                                pair=oname))
+                continue
+            for dname, dec in decs:
+                n += 1
+                try:
+                    r, rest = dec.decode(e, asn1Spec=spec)
+                    got = x690.norm(T, bridge.from_value(T, r))
+                except Exception as ex:
+                    out.append(fail('rt-canon', T, v, '%s: %s' % (type(ex).__name__, str(ex)[:200]),
+                                    pair=oname + '->' + dname, enc=e))
+                    continue
+                if got != want or rest:
+                    out.append(fail('rt-canon', T, v, 'round trip differs', pair=oname + '->' + dname, enc=e,
+                                    got=repr(got), rest=rest))
     return out, n
 
 
